@@ -38,7 +38,7 @@ print("quick total wall:", sum(v["wall"] for v in q.values()), "s; thorough tota
 if "--write" in sys.argv:
     d = (V / "DESIGN.md").read_text()
     lines = d.splitlines()
-    idx = [n for n, ln in enumerate(lines) if re.match(r"\| C\d\d \| \d+ \| ", ln)]
+    idx = [n for n, ln in enumerate(lines) if re.match(r"\| C\d\d \| \d+ \| \d+ / ", ln)]
     assert idx and idx[-1] - idx[0] + 1 == len(idx) == 20, idx
     lines[idx[0]:idx[-1] + 1] = rows
     (V / "DESIGN.md").write_text("\n".join(lines) + "\n")
